@@ -262,6 +262,8 @@ def run_recursion(ck, F):
 
 def run(ck, tier):
     F = factsmod.Facts("ws")
+    from . import influence as _infl
+    _infl.run(ck, F, 'C09')
     run_recursion(ck, F)
     run_obligations(ck, F)
     run_stored(ck, F)
